@@ -202,6 +202,36 @@ def binsOf (breaks : List α) (vals : List α) : List (Bin α) :=
 def rebinN (src : List (Bin α)) (n : Nat) : List α :=
   rebin src (linspace (minL (src.map (·.l))) (maxL (src.map (·.r))) n)
 
+/-! ## `rebin_histogram` of a two-dimensional histogram (MultiIndex of two interval levels) -/
+
+/-- One cell of a two-dimensional histogram: class `(xl, xr]` of the first level, `(yl, yr]` of the second, content `v`. -/
+structure Cell (α : Type) where
+  xl : α
+  xr : α
+  yl : α
+  yr : α
+  v : α
+
+/-- The code re-bins level by level (`groupby` the other level, `_do_rebin_histogram` along this one): what the
+cell gives to the target cell `(pl, pr] × (ql, qr]` is its first-level share, shared again along the second level. -/
+def share2 (pl pr ql qr : α) (c : Cell α) : α :=
+  share ql qr ⟨c.yl, c.yr, share pl pr ⟨c.xl, c.xr, c.v⟩⟩
+
+/-- Two-dimensional re-bin to the breaks `bx` (first level) and `by` (second level): row-major contents. -/
+def rebin2 (cells : List (Cell α)) (bx bys : List α) : List (List α) :=
+  (pairs bx).map fun p => (pairs bys).map fun q => total (cells.map (share2 p.1 p.2 q.1 q.2))
+
+/-- `binning.levels[binning.names.index(name)]`: the target binning of a level is looked up by the level's NAME. -/
+def pickBreaks (name : String) (target : List (String × List α)) : List α :=
+  match target.find? (fun t => t.1 == name) with
+  | some t => t.2
+  | none => []
+
+/-- `rebin_histogram(h, target)` for a histogram with the interval levels `names` and a target given as a
+MultiIndex with named levels (in any order). -/
+def rebin2Named (names : String × String) (target : List (String × List α)) (cells : List (Cell α)) : List (List α) :=
+  rebin2 cells (pickBreaks names.1 target) (pickBreaks names.2 target)
+
 /-! ## `combine_histogram(…, 'sum')` -/
 
 /-- Interval order used by the `groupby` (sorted keys): by left, then right bound. -/
